@@ -12,13 +12,18 @@
               because the check's classification of a failing case reads them from the case description).
     A panic of the implementation is [None] (unknown message) or [Some (Err e)]. *)
 From V Require Import Base.Util Gql.Ast Writer.Wop Ts.TsType Ts.TsDen C01.Model C01.Spec C01.Guards.
+From V Require C10.Parse.
 
 Inductive case :=
 | CDoc (S : tsdoc) (D : opdoc) (ops : option (res (list wop)))
 | CDef (S : tsdoc) (D : opdoc) (idx : nat) (tree : option (res stree)) (t : option tstype)
-       (safe alias_free plain mfree : bool)   (* the harness's evaluation of the four guards *)
+       (safe alias_free plain mfree mfree_ld : bool)   (* the harness's evaluation of the five guards *)
+       (decls : option (list (str * str * tstype)))
+       (* the [__OperationOutput] namespace READ FROM THE IMPLEMENTATION'S schema declaration text
+          (SchemaTypePrinter on the same schema; read once per schema by [out_decls], C10's reader);
+          [None]: no declaration was emitted or it is not readable *)
 | CTie (S : tsdoc) (D : opdoc) (idx : nat) (tree : option (res stree)) (t : option tstype)
-       (safe alias_free plain mfree : bool)
+       (safe alias_free plain mfree mfree_ld : bool)
    (* like [CDef], for a definition whose estimated evaluation cost (2^#boolean variables x size of the
       emitted type) is over the harness's budget: the correspondence is still checked, the property
       predicates are not evaluated (counted in the evidence) *)
@@ -28,7 +33,7 @@ Inductive case :=
       different list/non-null shape).  Such documents are outside the quantifier of C01/C02; the tie still
       compares the outcome (the real code panics in deep_merge.rs, the model returns EMergeFields /
       EMergeTrees); the property predicates are vacuously true. *)
-| CRelaxed (S : tsdoc) (D : opdoc) (idx : nat) (t : option tstype).
+| CRelaxed (S : tsdoc) (D : opdoc) (idx : nat) (t : option tstype) (decls : option (list (str * str * tstype))).
    (* twin of a [CDef] whose definition contains an aliased __typename: C02 is evaluated with that one
       known deviation read into Ref_local, so any OTHER looseness still fails *)
 
@@ -107,8 +112,23 @@ Definition guard_alias_free (S : tsdoc) (D : opdoc) (d : execdef) : bool :=
   | None => true
   end.
 
+(** ** the schema declaration file the operation types are read together with: the implementation's *)
+Definition out_decls (S : tsdoc) (text : str) : option (list (str * str * tstype)) :=
+  match C10.Parse.parse_schema_text (C10.Parse.raw_local S) text with
+  | Some nss => option_map snd (find (fun nm => str_eqb (fst nm) OUT) nss)
+  | None => None
+  end.
+(** [Schema.__OperationOutput.N] = the declaration exported as [N]; inside the namespace, declarations
+    refer to each other by their local names *)
+Definition text_env (decls : list (str * str * tstype)) : tsenv :=
+  mkEnv (fun l => option_map snd (find (fun d => str_eqb (snd (fst d)) l) decls))
+        (fun _ _ => None)
+        (fun a b c => if str_eqb a NS && str_eqb b OUT
+                      then option_map snd (find (fun d => str_eqb (fst (fst d)) c) decls)
+                      else None).
+
 Definition agree_def (Sc : tsdoc) (D : opdoc) (idx : nat) (tree : option (res stree)) (t : option tstype)
-           (safe al pl mf : bool) : bool :=
+           (safe al pl mf ml : bool) : bool :=
   match nth_error (od_defs D) idx with
   | None => false
   | Some d =>
@@ -121,6 +141,7 @@ Definition agree_def (Sc : tsdoc) (D : opdoc) (idx : nat) (tree : option (res st
       && Bool.eqb (guard_alias_free Sc D d) al
       && Bool.eqb (guard_plain Sc d) pl
       && Bool.eqb (guard_merge_free Sc D d) mf
+      && Bool.eqb (guard_merge_free_ld Sc D d) ml
   end.
 
 Definition agree (c : case) : bool :=
@@ -130,9 +151,9 @@ Definition agree (c : case) : bool :=
       | Some r => res_eqb wops_eqb (print_document default_options Sc D) r
       | None => false
       end
-  | CDef Sc D idx tree t safe al pl mf => agree_def Sc D idx tree t safe al pl mf
-  | CTie Sc D idx tree t safe al pl mf => agree_def Sc D idx tree t safe al pl mf
-  | CRelaxed _ _ _ _ => true
+  | CDef Sc D idx tree t safe al pl mf ml _ => agree_def Sc D idx tree t safe al pl mf ml
+  | CTie Sc D idx tree t safe al pl mf ml => agree_def Sc D idx tree t safe al pl mf ml
+  | CRelaxed _ _ _ _ _ => true
   | CInvalid Sc D idx tree =>
       match nth_error (od_defs D) idx, tree with
       | Some d, Some r => res_eqb stree_eqb (def_tree Sc D d) r
@@ -161,12 +182,11 @@ Fixpoint reach_vars (fuel : nat) (F : list fragdef) (sels : list selection) {str
 Definition sigmas (D : opdoc) (sels : list selection) : list asg :=
   all_asg (firstn 6 (dedup (reach_vars (sp_fuel D) (sp_frags D) sels))).
 
-Definition c01_on (S : tsdoc) (D : opdoc) (d : execdef) (t : tstype) : bool :=
+Definition c01_on (E : tsenv) (S : tsdoc) (D : opdoc) (d : execdef) (t : tstype) : bool :=
   match def_target S d with
   | None => true
   | Some (T, sels) =>
       let F := sp_frags D in
-      let E := schema_env S in
       let fuel := sp_fuel D in
       let cands := sample CAND_CAP (flat_map (fun sg => map (fun v => (sg, v)) (exec_enum S F fuel sg fuel T sels)) (sigmas D sels)) in
       let real := filter (fun p => exec_b S F fuel (fst p) fuel T sels (snd p)) cands in
@@ -236,38 +256,37 @@ Section DenDD.
 End DenDD.
 
 (** ** C02 on the implementation's type: every enumerated value it admits is in Ref_local *)
-Definition c02_with (relaxed : bool) (S : tsdoc) (D : opdoc) (d : execdef) (t : tstype) : bool :=
+Definition c02_with (relaxed : bool) (E : tsenv) (S : tsdoc) (D : opdoc) (d : execdef) (t : tstype) : bool :=
   match def_target S d with
   | None => true
   | Some (T, sels) =>
       let F := sp_frags D in
-      let E := schema_env S in
       let fuel := sp_fuel D in
       let inh := filter (admits E HT_FUEL t) (sample CAND_CAP (inhabitants E HT_FUEL t)) in
       negb (is_nil inh) && forallb (fun v => den_dd S F fuel relaxed fuel T sels v) inh
   end.
 Definition c02_on := c02_with false.
 
-Definition holds_with (p : tsdoc -> opdoc -> execdef -> tstype -> bool) (c : case) : bool :=
+Definition holds_with (p : tsenv -> tsdoc -> opdoc -> execdef -> tstype -> bool) (c : case) : bool :=
   match c with
   | CDoc _ _ _ => true
-  | CRelaxed _ _ _ _ => true
+  | CRelaxed _ _ _ _ _ => true
   | CInvalid _ _ _ _ => true
-  | CTie _ _ _ _ _ _ _ _ _ => true
-  | CDef Sc D idx _ t _ _ _ _ =>
-      match nth_error (od_defs D) idx, t with
-      | Some d, Some t => p Sc D d t
-      | _, _ => false          (* no type was produced for a definition of a valid document *)
+  | CTie _ _ _ _ _ _ _ _ _ _ => true
+  | CDef Sc D idx _ t _ _ _ _ _ decls =>
+      match nth_error (od_defs D) idx, t, decls with
+      | Some d, Some t, Some ds => p (text_env ds) Sc D d t
+      | _, _, _ => false    (* no type for a definition of a valid document, or no readable schema declaration *)
       end
   end.
 
 Definition holds1 : case -> bool := holds_with c01_on.
 Definition holds2 (c : case) : bool :=
   match c with
-  | CRelaxed Sc D idx t =>
-      match nth_error (od_defs D) idx, t with
-      | Some d, Some t => c02_with true Sc D d t
-      | _, _ => false
+  | CRelaxed Sc D idx t decls =>
+      match nth_error (od_defs D) idx, t, decls with
+      | Some d, Some t, Some ds => c02_with true (text_env ds) Sc D d t
+      | _, _, _ => false
       end
   | _ => holds_with c02_on c
   end.
